@@ -104,6 +104,68 @@ func stall(addr, script string) (net.Conn, error) {
 	return tc, nil
 }
 
+// one-shot abuse at the HTTP/1.1 and TLS-record level: sent, answer (if any) discarded, connection closed by whoever closes first
+var shots = []string{"h1-huge-header", "h1-many-headers", "h1-bad-chunk", "h1-negative-length", "h1-two-lengths", "h1-http09", "h1-connect", "h1-pipeline-200",
+	"h1-nul-in-header", "h1-smuggle-te-cl", "h1-upgrade-h2c", "h1-expect-then-nothing", "tls-garbage-after-handshake", "tls-oversized-record", "h2-preface-on-h1", "h1-request-on-h2"}
+
+func shot(addr, script string) error {
+	alpn := "http/1.1"
+	if script == "h1-request-on-h2" {
+		alpn = "h2"
+	}
+	raw, err := net.DialTimeout("tcp", addr, 2*time.Second)
+	if err != nil {
+		return err
+	}
+	defer raw.Close()
+	raw.SetDeadline(time.Now().Add(4 * time.Second))
+	tc := tls.Client(raw, &tls.Config{InsecureSkipVerify: true, ServerName: "vf.test", NextProtos: []string{alpn}})
+	if err := tc.Handshake(); err != nil {
+		return err
+	}
+	w := func(s string) { io.WriteString(tc, s) }
+	switch script {
+	case "h1-huge-header":
+		w("GET /a HTTP/1.1\r\nHost: vf.test\r\nX-Big: " + strings.Repeat("a", 2<<20) + "\r\n\r\n")
+	case "h1-many-headers":
+		w("GET /a HTTP/1.1\r\nHost: vf.test\r\n" + strings.Repeat("X-H: 1\r\n", 20000) + "\r\n")
+	case "h1-bad-chunk":
+		w("POST /a HTTP/1.1\r\nHost: vf.test\r\nTransfer-Encoding: chunked\r\n\r\nzz\r\nabc\r\n0\r\n\r\n")
+	case "h1-negative-length":
+		w("POST /a HTTP/1.1\r\nHost: vf.test\r\nContent-Length: -5\r\n\r\nabc")
+	case "h1-two-lengths":
+		w("POST /a HTTP/1.1\r\nHost: vf.test\r\nContent-Length: 3\r\nContent-Length: 5\r\n\r\nabcde")
+	case "h1-http09":
+		w("GET /a\r\n\r\n")
+	case "h1-connect":
+		w("CONNECT other.example:443 HTTP/1.1\r\nHost: other.example:443\r\n\r\n")
+	case "h1-pipeline-200":
+		w(strings.Repeat("GET /p HTTP/1.1\r\nHost: vf.test\r\n\r\n", 200))
+	case "h1-nul-in-header":
+		w("GET /a HTTP/1.1\r\nHost: vf.test\r\nX-N: a\x00b\r\n\r\n")
+	case "h1-smuggle-te-cl":
+		w("POST /a HTTP/1.1\r\nHost: vf.test\r\nContent-Length: 4\r\nTransfer-Encoding: chunked\r\n\r\n0\r\n\r\nGET /smuggled HTTP/1.1\r\nHost: vf.test\r\n\r\n")
+	case "h1-upgrade-h2c":
+		w("GET /a HTTP/1.1\r\nHost: vf.test\r\nConnection: Upgrade, HTTP2-Settings\r\nUpgrade: h2c\r\nHTTP2-Settings: AAMAAABkAAQAAP__\r\n\r\n")
+	case "h1-expect-then-nothing":
+		w("POST /a HTTP/1.1\r\nHost: vf.test\r\nContent-Length: 10\r\nExpect: 100-continue\r\n\r\n")
+	case "tls-garbage-after-handshake":
+		raw.Write([]byte{0x17, 0x03, 0x03, 0x00, 0x20})
+		raw.Write(make([]byte, 0x20))
+	case "tls-oversized-record":
+		raw.Write([]byte{0x17, 0x03, 0x03, 0xff, 0xff})
+		raw.Write(make([]byte, 70000))
+	case "h2-preface-on-h1":
+		w(h2raw.Preface)
+		tc.Write(h2raw.Settings())
+	case "h1-request-on-h2":
+		w("GET /a HTTP/1.1\r\nHost: vf.test\r\n\r\n")
+	}
+	tc.SetReadDeadline(time.Now().Add(600 * time.Millisecond))
+	io.Copy(io.Discard, tc)
+	return nil
+}
+
 // runStalls starts every script (or just one), waits several read timeouts, then asks whether the process still serves
 func runStalls(ch *Child, only string) error {
 	var held []net.Conn
@@ -367,6 +429,48 @@ func main() {
 			return
 		}
 		report["stall_scripts"] = stallScripts
+		// one-shot HTTP/1.1 / TLS-record abuse, all at once, then each alone if the child suffers
+		var swg sync.WaitGroup
+		for _, sc := range shots {
+			swg.Add(1)
+			go func(sc string) { defer swg.Done(); shot(ch.addr, sc) }(sc)
+		}
+		swg.Wait()
+		if !ch.alive() || control(ch.addr) != nil {
+			why := "control requests fail after the one-shot scripts"
+			if !ch.alive() {
+				why = "process exited: " + ch.exit
+			}
+			ch.stop()
+			found := false
+			for _, sc := range shots {
+				c2, e2 := startChild()
+				if e2 != nil {
+					break
+				}
+				shot(c2.addr, sc)
+				time.Sleep(50 * time.Millisecond)
+				if !c2.alive() || control(c2.addr) != nil {
+					s2 := c2.stderr.String()
+					if len(s2) > 1500 {
+						s2 = s2[:1500]
+					}
+					killers = append(killers, map[string]any{"frame_type": "SHOT", "mode": sc, "open_header_block_on": 0, "bytes": "", "len": 0, "effect": why, "child_stderr_head": s2})
+					found = true
+				}
+				c2.stop()
+			}
+			if !found {
+				report["error"] = "child failed during the one-shot scripts (" + why + ") but no single script reproduces it"
+			}
+			report["killers"] = killers
+			report["outcomes"] = map[string]int{}
+			report["control_rounds"] = 0
+			b, _ := json.Marshal(report)
+			os.WriteFile(reportPath, b, 0o644)
+			return
+		}
+		report["one_shot_scripts"] = shots
 	}
 	window := func(hi int) []*Vector { // what may have been in flight when trouble was noticed
 		lo := hi - 4*P
